@@ -251,3 +251,74 @@ def random_shapes(seed: int, n: int, depth: int = 2) -> typing.List[Spec]:
         if c not in out:
             out.append(c)
     return out
+
+
+# ------------------------------------------------------------------------------------------------------------------
+# specs -> DSDL text (one in-memory definition per composite), for harnesses that go through the reader
+
+
+class Unsupported(Exception):
+    pass
+
+
+def prim_text(spec: str) -> str:
+    if spec in ("bool", "byte", "utf8") or spec.startswith("void"):
+        return spec
+    if spec.startswith("tu"):
+        return "truncated uint" + spec[2:]
+    if spec.startswith("tf"):
+        return "truncated float" + spec[2:]
+    if spec.startswith("u"):
+        return "uint" + spec[1:]
+    if spec.startswith("i"):
+        return "int" + spec[1:]
+    if spec.startswith("f"):
+        return "float" + spec[1:]
+    raise ValueError(spec)
+
+
+def to_definitions(spec: Spec, root_name: str = "ns.Root", extra_lines: typing.Optional[typing.Mapping[int, typing.Sequence[str]]] = None,
+                   prefix: str = "N") -> typing.Tuple[str, typing.List[typing.Tuple[str, str]]]:
+    """
+    Renders a composite spec as DSDL: returns (text of the root definition, [(full name, text) of nested composites]).
+    extra_lines[i] are inserted before field i of the ROOT (key len(fields) = after the last field).
+    """
+    deps = []  # type: typing.List[typing.Tuple[str, str]]
+    counter = [0]
+
+    def type_text(s: Spec) -> str:
+        if isinstance(s, str):
+            return prim_text(s)
+        if s[0] in ("farr", "varr"):
+            if not isinstance(s[1], str) and s[1][0] in ("farr", "varr"):
+                raise Unsupported("array of arrays has no DSDL spelling")
+            return "%s[%s%s]" % (type_text(s[1]), "" if s[0] == "farr" else "<=", s[2])
+        counter[0] += 1
+        name = "ns.%s%d" % (prefix, counter[0])
+        deps.append((name, body(s, None)))
+        return name + ".1.0"
+
+    def body(s: Spec, extra: typing.Optional[typing.Mapping[int, typing.Sequence[str]]]) -> str:
+        ext = None
+        if s[0] == "delim":
+            ext = s[2] if len(s) > 2 and s[2] is not None else "auto"
+            s = s[1]
+        lines = ["@union"] if s[0] == "union" else []
+        for i, f in enumerate(s[1]):
+            lines += list((extra or {}).get(i, []))
+            if isinstance(f, str) and f.startswith("void"):
+                lines.append(f)
+            else:
+                lines.append("%s f%d" % (type_text(f), i))
+        lines += list((extra or {}).get(len(s[1]), []))
+        if ext is None:
+            lines.append("@sealed")
+        elif ext == "auto":
+            lines.append("@extent _offset_.max + (8 - _offset_.max % 8) % 8")
+        else:
+            lines.append("@extent %s" % ext)
+        return "\n".join(lines) + "\n"
+
+    root = body(spec, extra_lines)
+    _ = root_name
+    return root, deps
